@@ -139,6 +139,8 @@ def gen_push(rng, label, malformed=False):
                 din, dout, ion, pn = int(q == 0), int(q == 1), int(q == 2), int(q == 3)
                 if q == 4 and tr.may_input():
                     i = -rng.choice((1, 5, 64))
+                if q == 5:
+                    din = dout = 1      # end of input signalled without buffers: flushes the engines at once
                 # (a NULL data_out with output_frames == 0 is accepted by soxr.c - `!out && len0` is the refusal - and is part of the stream:
                 #  it must leave the converter as it was; it ends in memcpy(NULL, ..., 0), which the report filter below sets aside)
             s.add("process", hx(r), i, o, eoi, din, dout, ion, pn)
@@ -236,6 +238,14 @@ def gen_fixed():
     s = Seq("fixed-neg-ratio", "fixed"); s.add("new", 0, 1, 1); s.add("process", hx(-1.0), 10, 10, 0, 0, 0, 0, 0); out.append(s)
     s = Seq("fixed-zero-ratio-reset", "fixed"); s.add("new", 0, 1, 1); s.add("process", hx(0.0), 10, 10, 0, 0, 0, 0, 0)
     s.add("error", 0); s.add("reset", 0); s.add("process", hx(1.0), 10, 10, 0, 0, 0, 0, 0); out.append(s)
+    # witness of theorem channels_invariant_reset_violated / failed_create_then_reset_crashes: a finite positive ratio the
+    # engine refuses (2^-32), error reported, src_reset drops it, the next call crashes -- model and code must agree
+    s = Seq("fixed-failed-create-reset", "fixed"); s.add("new", 0, 1, 1); s.add("process", "3df0000000000000", 10, 10, 0, 0, 0, 0, 0)
+    s.add("error", 0); s.add("reset", 0); s.add("error", 0); s.add("process", hx(1.0), 10, 10, 0, 0, 0, 0, 0); out.append(s)
+    # end of input signalled without buffers (both pointers NULL): the engines are flushed at once (/repo ab95331)
+    s = Seq("fixed-no-buffers", "fixed"); s.add("new", 2, 2, 1); s.add("process", hx(2.0), 50, 200, 0, 0, 0, 0, 0)
+    s.add("process", hx(2.0), 0, 0, 1, 1, 1, 0, 0); s.add("process", hx(2.0), 0, 300, 1, 0, 0, 0, 0); s.add("process", hx(2.0), 0, 300, 1, 0, 0, 0, 0)
+    s.add("delete", 0); out.append(s)
     s = Seq("fixed-nulls", "fixed"); s.add("new", 1, 2, 1)
     for t in ("process %s 10 10 0 0 0 0 1", "process %s 10 10 0 0 0 1 0", "process %s 10 10 0 0 0 1 1", "setratio %s 1"):
         s.add(t % hx(1.0))
@@ -386,6 +396,12 @@ def expected_total(nin, ratio):
     return {lo, hi}
 
 
+def bad_ratio(rb):
+    """outside the contract of the no-crash / totals clauses: not a positive finite number, or beyond what the engines accept
+    (resampling factors >= 2^31 are refused: resampler_create fails, modelled and compared, but no totals are owed)."""
+    return not (rb > 0) or math.isinf(rb) or rb < 2.0 ** -30 or rb > 2.0 ** 30
+
+
 def falsify(ctx, seqs, res, viol, known):
     """property oracles on the real code's answers, independent of the model."""
     stats = dict(calls=0, contract_checked=0, totals_checked=0, after_end_checked=0, reset_checked=0, null_checked=0, crashes=0)
@@ -409,7 +425,7 @@ def falsify(ctx, seqs, res, viol, known):
                     allowed = "F32"
                 elif t[0] in ("process", "read") and cid is not None:
                     rb = bitsd(int(t[1], 16))
-                    bad_now = not (rb > 0) or math.isinf(rb)
+                    bad_now = bad_ratio(rb)
                     if bad_now or not valid_run:
                         allowed = "out-of-contract: invalid src_ratio on this converter (see assumptions)"
                 elif t[0] == "simple":
@@ -434,7 +450,7 @@ def falsify(ctx, seqs, res, viol, known):
                     if kv.get("rc") != "-1":
                         viol.append((s, k, "NULL converter / data block did not give an error code: " + r))
                     continue
-                if not (rb > 0) or math.isinf(rb):
+                if bad_ratio(rb):
                     valid_run = False
                 if i < 0 or din or dout or not valid_run:
                     valid_run = False
@@ -488,7 +504,7 @@ def falsify(ctx, seqs, res, viol, known):
                 olen, dout, pn = int(t[2]), int(t[3]), int(t[4])
                 ret = int(kv["ret"])
                 rb = bitsd(int(t[1], 16))
-                if not pn and olen >= 0 and (not (rb > 0) or math.isinf(rb)):
+                if not pn and olen >= 0 and (bad_ratio(rb)):
                     valid_run = False
                 if pn or olen < 0:
                     stats["null_checked"] += 1
